@@ -47,6 +47,41 @@ def parse_races(paths):
     return out
 
 
+def crash_site(text):
+    """(innermost /repo function on the panicking stack, log excerpt) from the router's panic log."""
+    m = re.search(r'ERROR\s+\S+\s+Panic\s+(\{.*)', text)
+    excerpt = m.group(1) if m else text[-1500:]
+    fn = "unknown"
+    for f in re.findall(r'(github\.com/scionproto/scion/[^\s\\"]+)\\n', excerpt):
+        f = f[len(SCION):]
+        if f.startswith("pkg/log."):
+            continue
+        fn = re.sub(r"\.func\d+(\.\d+)*$", "", f)
+        break
+    return fn, excerpt
+
+
+def keep_complete_traces(path):
+    """The driver died: keep the reset-delimited traces that were written completely."""
+    if not os.path.exists(path):
+        open(path, "w").close()
+        return
+    lines = open(path, errors="replace").read().split("\n")
+    good = []
+    cur = []
+    for ln in lines:
+        try:
+            e = json.loads(ln)
+        except Exception:
+            break
+        cur.append(ln)
+        if e.get("ev") == "final":
+            good += cur
+            cur = []
+    with open(path, "w") as f:
+        f.write("".join(x + "\n" for x in good))
+
+
 def run(c):
     drv = c.build("pool", race=not os.environ.get("C14_NORACE"))   # C14_NORACE: development only (mutation runs)
     if c.thorough:
@@ -91,11 +126,23 @@ def run(c):
                 part = c.scratch + "/part%d.ndjson" % k
                 sfile = c.scratch + "/sites%d.ndjson" % k
                 racep = c.scratch + "/race%d" % k
-                c.run_driver(drv, ["-n", per, "-first", k * per, "-out", part, "-sites", sfile],
-                             env_extra={"GORACE": "log_path=%s halt_on_error=0 exitcode=0" % racep},
-                             timeout=2400)
+                p = c.run_driver(drv, ["-n", per, "-first", k * per, "-out", part, "-sites", sfile],
+                                 env_extra={"GORACE": "log_path=%s halt_on_error=0 exitcode=0" % racep},
+                                 timeout=2400, check=False)
+                crash = None
+                if p.returncode == 255 and "Service panicked" in p.stdout:
+                    # a router goroutine panicked (log.HandlePanic exits with 255): an observation
+                    # about the real code, recorded as an event without specification action
+                    crash = crash_site(p.stdout)
+                    keep_complete_traces(part)
+                elif p.returncode != 0:
+                    raise vlib.Infra("driver pool failed (%d):\n%s" % (p.returncode, p.stdout[-4000:]))
                 out.write(open(part).read())
-                for line in open(sfile):
+                if crash:
+                    out.write(json.dumps({"ev": "reset", "id": -2, "nbuf": 0, "batch": 1, "np": 1, "ns": 1,
+                                          "nconn": 1, "nif": 1, "panic_log": crash[1][:600]}) + "\n")
+                    out.write(json.dumps({"ev": "crash", "where": crash[0]}) + "\n")
+                for line in (open(sfile) if os.path.exists(sfile) else []):
                     s = json.loads(line)
                     sites[s["site"]] = sites.get(s["site"], 0) + s["n"]
                 races = parse_races(glob.glob(racep + ".*"))
